@@ -123,6 +123,29 @@ func richValues() []Rich {
 	}
 }
 
+// anyValues: a stream whose element type is an interface, with nil elements in it.
+func anyValues() []interface{} {
+	return []interface{}{1, "two", nil, 3.5, nil, []interface{}{"x"}, map[string]interface{}{"k": nil}}
+}
+
+func (h *StreamSrv) SubAny(ctx context.Context, id int) (<-chan interface{}, error) {
+	out := make(chan interface{})
+	h.s.Go(fmt.Sprintf("prodany-%d", id), func() {
+		defer close(out)
+		if h.syncK > 0 {
+			h.s.Env("prod-go")
+		}
+		for _, v := range anyValues() {
+			select {
+			case out <- v:
+			case <-ctx.Done():
+				return
+			}
+		}
+	})
+	return out, nil
+}
+
 func (h *StreamSrv) SubRich(ctx context.Context, id int) (<-chan Rich, error) {
 	out := make(chan Rich)
 	h.s.Go(fmt.Sprintf("prodrich-%d", id), func() {
@@ -156,6 +179,7 @@ func (h *StreamSrv) Done(id int) bool {
 type StreamCli struct {
 	SubNaN  func(ctx context.Context, id int) (<-chan float64, error)
 	SubRich func(ctx context.Context, id int) (<-chan Rich, error)
+	SubAny  func(ctx context.Context, id int) (<-chan interface{}, error)
 	Sub     func(ctx context.Context, id int, n int) (<-chan int, error)
 	// the same subscription through a client function declared without a context parameter
 	SubNC func(id int, n int) (<-chan int, error) `rpc_method:"T.Sub"`
@@ -356,6 +380,7 @@ func streamBody(s *vsched.Sched, p Param) {
 	obs := NewObs()
 	var richMu sync.Mutex
 	var richGot []Rich
+	var anyGot []interface{}
 	s.Teardown = func() {
 		for _, c := range sw.cancel {
 			c()
@@ -414,6 +439,15 @@ func streamBody(s *vsched.Sched, p Param) {
 		}
 		if p.I("rich") == 1 {
 			richMu.Lock()
+			gotA, _ := json.Marshal(anyGot)
+			richMu.Unlock()
+			wantA, _ := json.Marshal(anyValues())
+			if v, _ := obs.Get("any"); v != "closed" {
+				s.Violate("C07: interface-valued subscription did not complete: %q; alive: %s", v, strings.Join(s.Alive(), " "))
+			} else if string(gotA) != string(wantA) {
+				s.Violate("C07: interface-valued subscription delivered %s, handler sent %s (nil elements are values too)", gotA, wantA)
+			}
+			richMu.Lock()
 			gotJ, _ := json.Marshal(richGot)
 			richMu.Unlock()
 			wantJ, _ := json.Marshal(richValues())
@@ -429,6 +463,20 @@ func streamBody(s *vsched.Sched, p Param) {
 	}
 	s.Begin()
 	if p.I("rich") == 1 {
+		s.Go("sub-any", func() {
+			ch, err := sw.cli.SubAny(sw.ctxs[0], 7)
+			if err != nil || ch == nil {
+				obs.Set("any", "err:%v", err)
+				return
+			}
+			obs.Set("any", "open")
+			for v := range ch {
+				richMu.Lock()
+				anyGot = append(anyGot, v)
+				richMu.Unlock()
+			}
+			obs.Set("any", "closed")
+		})
 		s.Go("sub-rich", func() {
 			ch, err := sw.cli.SubRich(sw.ctxs[0], 8)
 			if err != nil || ch == nil {
